@@ -1012,6 +1012,7 @@ impl YaccParser<'_> {
                                                 ));
                                             }
                                             self.num_newlines += 1;
+                                            continue;
                                         }
                                         '*' => (),
                                         _ => continue,
